@@ -173,6 +173,27 @@ def dotdot_case(src, base, img):
     return ["directory %d moved below directory %d (a higher inode number), whose '..' entry is made to name /lost+found (%d) instead of the root; link counts follow the entries" % (zx, zy, lf)]
 
 
+def quota_unattached_case(src, img):
+    """quota; an empty regular file and an empty directory without a name: pass 4 clears them (nothing to reconnect) and has
+    to take them off their owner's inode count"""
+    env = e2v.tool_env(src)
+    T = lambda p_: os.path.join(src, p_)
+    e2v.sh([T("misc/mke2fs"), "-q", "-F", "-t", "ext4", "-b", "1024", "-O", "quota", "-N", "512", img, "8M"], env=env, timeout=120)
+    e2v.sh([T("debugfs/debugfs"), "-w", "-f", "-", img], input=b"write /dev/null e\nwrite /etc/services s\nmkdir d\nwrite /dev/null d/f\n", env=env, timeout=60)
+    e2v.sh([T("e2fsck/e2fsck"), "-fy", img], env=env, timeout=120)        # debugfs does not keep the quota files
+    e2v.sh([T("debugfs/debugfs"), "-w", "-f", "-", img], input=b"unlink e\nunlink d/f\n", env=env, timeout=60)
+    return ["quota filesystem: two empty regular files lose their only name (debugfs unlink)"]
+
+
+def no_lostfound_case(src, img, feats):
+    """/lost+found removed: e2fsck -fy creates it again, in a form the next run accepts"""
+    env = e2v.tool_env(src)
+    T = lambda p_: os.path.join(src, p_)
+    e2v.sh([T("misc/mke2fs"), "-q", "-F", "-t", "ext4", "-b", "1024", "-O", feats, "-N", "512"] + (["-C", "4096"] if "bigalloc" in feats else []) + [img, "16M"], env=env, timeout=120)
+    e2v.sh([T("debugfs/debugfs"), "-w", "-f", "-", img], input=b"write /etc/services s\nrmdir lost+found\n", env=env, timeout=60)
+    return ["%s filesystem: rmdir /lost+found" % feats]
+
+
 def bigalloc_quota_lostfound(src, img):
     """bigalloc + quota, a directory with 2000 fifos whose inode is cleared: the repair has to grow /lost+found by whole
     clusters and charge them to the quota in cluster units"""
@@ -307,6 +328,13 @@ def one_case(src, idx, seed, tier, keep=False):
         name, opts, size = [c for c in corrupt.IMG_CONFIGS if c[0] == ("ext3" if idx % 2 == 0 else "ext4_1k")][0]
         base = corrupt.build_image(src, WORK, name, opts, size, 1)
         desc = dotdot_case(src, base, img)
+    elif idx == nd + 4 + 2 * len(corrupt.PAIRS) + 4 + len(corrupt.ORPHAN_VARIANTS) + 10:
+        name, opts, size = "ext4_quota_small", ["-t", "ext4", "-b", "1024", "-O", "quota", "-N", "512"], "8M"
+        desc = quota_unattached_case(src, img)
+    elif idx in (nd + 4 + 2 * len(corrupt.PAIRS) + 4 + len(corrupt.ORPHAN_VARIANTS) + 11, nd + 4 + 2 * len(corrupt.PAIRS) + 4 + len(corrupt.ORPHAN_VARIANTS) + 12):
+        feats_ = "bigalloc" if idx % 2 else "^flex_bg"
+        name, opts, size = "ext4_no_lostfound_" + feats_.strip("^"), ["-t", "ext4", "-b", "1024", "-O", feats_, "-N", "512"], "16M"
+        desc = no_lostfound_case(src, img, feats_)
     elif idx == nd + 4 + 2 * len(corrupt.PAIRS) + 4 + len(corrupt.ORPHAN_VARIANTS) + 5:
         # the listed known finding: i_file_acl of the orphan file inode beyond the end of the filesystem
         name, opts, size = [c for c in corrupt.IMG_CONFIGS if c[0] == "ext4_1k"][0]
